@@ -196,7 +196,10 @@ def c09_oracle(full, io, b):
             if cf[0] == "new":
                 m = re.match(r"^[^/?#]*?//([^/?#]*)", dec(cf[3]).lstrip("".join(chr(i) for i in range(33))).replace("\t", "").replace("\n", "").replace("\r", ""))
                 auth = m.group(1) if m else ""
-            if auth and set(auth) <= set("@:"):
+            sval = v.get(src, "val")
+            stored_netloc = dlist(sval)[1] if sval and sval.startswith("L5:") else (dec(v.get(src, "raw_authority")) if v.get(src, "raw_authority") and not v.get(src, "raw_authority").startswith("!") else None)
+            if auth and (set(auth) <= set("@:") or stored_netloc == ""):
+                # the written authority disappears altogether: only '@' / ':' — or a user the quoter drops (lone surrogates) — in front of an empty host
                 cls = "authority-normalises-to-empty"
             else:
                 hostinfo = auth.rpartition("@")[2]
